@@ -3622,7 +3622,7 @@ impl AbiTraitDefinition {
                 &new_method.info.return_value,
                 &old_method.info.return_value,
                 "".into(),
-                is_return_position,
+                true, /*this is a return value*/
             ) {
                 return Err(format!("In trait {}, method {}, the return value type has changed from version {}: {}. This is not a backward-compatible change.",
                                    self.name, old_method.name, old_version, diff
